@@ -392,6 +392,11 @@ def run(case, ctx):
         for i, (a, ln) in enumerate(blocks):
             nxt = blocks[i + 1][0] if i + 1 < len(blocks) else 0
             data = bytes(32 + (rng.getrandbits(8) % 90) for _ in range(ln))
+            if ln and rng.random() < .3:
+                # consoles print NULs too (terminated records), also last
+                data = data[:-1] + b"\0"
+                if ln > 3 and rng.random() < .5:
+                    data = data[:ln // 2] + b"\0" + data[ln // 2 + 1:]
             c.wr(a, struct.pack("<4I", nxt, 11, 22, ln) +
                  data.ljust(case["iobuf_size"], b"\xee"), log=False)
             text += data
